@@ -617,6 +617,7 @@ func (lvs *ValueStore) GC(ctx context.Context, gcConfig chunks.GCConfig, oldGenR
 				return nil
 			}
 			newGenRefs.Insert(root)
+			verifGCYield("oldgen")
 
 			incrementalUpdateManifest := gcConfig.Mode != chunks.GCMode_Full
 			var oldGenFinalizer, newGenFinalizer chunks.GCFinalizer
